@@ -63,6 +63,9 @@ pub struct DrvState {
     pub fin_done: bool,
     pub forced_done: [bool; 3],
     pub consec_polls: u32,
+    /// consecutive task polls that produced no event while no external action was enabled
+    pub quiet_polls: u32,
+    pub hist_len_seen: usize,
     pub stall_budget: u32,
     pub spurious_budget: u32,
     pub clock_budget: u32,
@@ -94,6 +97,8 @@ impl SimDriver {
                 fin_done: false,
                 forced_done: [false; 3],
                 consec_polls: 0,
+                quiet_polls: 0,
+                hist_len_seen: 0,
                 stall_budget: 3,
                 spurious_budget: 8,
                 clock_budget: 3,
@@ -640,7 +645,26 @@ impl Driver for SimDriver {
             let runnable = Self::sorted_runnable(rt);
             let acts = self.enabled();
 
-            if runnable.is_empty() && acts.is_empty() {
+            // A task that wakes itself for ever (observed: the connection dispatcher re-polls in a tight
+            // loop while a protocol-control handler is busy and another control packet is buffered)
+            // never lets the run queue drain. It changes nothing: after 300 polls without any event
+            // and with no external action possible the system is treated as quiescent.
+            let spinning = {
+                let mut st = self.st.borrow_mut();
+                let hl = self.w.hist.borrow().len();
+                if hl != st.hist_len_seen || !acts.is_empty() || runnable.is_empty() {
+                    st.hist_len_seen = hl;
+                    st.quiet_polls = 0;
+                } else {
+                    st.quiet_polls += 1;
+                }
+                st.quiet_polls >= 300
+            };
+            if spinning && self.st.borrow().quiet_polls == 300 {
+                self.w.stats.borrow_mut().probes.entry("self-waking-task").and_modify(|n| *n += 1).or_insert(1);
+            }
+            if (runnable.is_empty() || spinning) && acts.is_empty() {
+                self.st.borrow_mut().quiet_polls = 0;
                 // quiescent: advance the clock, change phase, or stop
                 if let Some(t) = self.next_time()
                     && t <= horizon_ns
@@ -653,8 +677,10 @@ impl Driver for SimDriver {
                     continue;
                 }
                 self.w.finish();
-                while rt.sim_runnable_len() > 0 && !rt.sim_stopped() {
+                let mut guard = 0;
+                while rt.sim_runnable_len() > 0 && !rt.sim_stopped() && guard < 2000 {
                     rt.sim_run(0);
+                    guard += 1;
                 }
                 break;
             }
